@@ -432,6 +432,42 @@ def _bitname(row, c):
     return (" ^ ".join(xs) if xs else "0") + (" ^ 1" if c else "")
 
 
+# ---- R-STREAM ---------------------------------------------------------------------------------------------
+
+def check_stream(res, facts):
+    """msm_chunks consumes the two streams in lock step: the alignment (`skip` of the surplus bases) happens once, before
+    the chunk loop; inside the loop both streams are advanced by exactly `take(step)` with the same step and nothing else
+    consumes or skips elements"""
+    from rules.c07 import E, show
+    rule = res.rule("R-STREAM", "msm_chunks: streams aligned once before the loop, then advanced in lock step by take(step)", 1)
+    fs = [f for f in facts.fns(unit="ws", crate="ark_ec") if f.kind != "Closure" and f.name == "msm_chunks"]
+    key = "ark_ec|VariableBaseMSM::msm_chunks"
+    if not fs:
+        rule.bad(key, "anchor missing")
+        return
+    f = fs[0]
+    loops = DF.sccs(f)
+    inloop = set().union(*loops) if loops else set()
+    problems = []
+    consuming = {"skip", "step_by", "skip_while", "nth", "advance_by", "next", "take_while", "last", "count", "peekable"}
+    inside = [(bb, t["f"].get("name")) for bb, t in f.calls() if bb in inloop and not t.get("mac")]
+    bad_in = [n for bb, n in inside if n in consuming and not (n == "next" and any(t["f"].get("name") == "next" and "Range" in show(E(f, t["args"][0])) for b2, t in f.calls() if b2 == bb))]
+    if bad_in:
+        problems.append("inside the chunk loop the streams are additionally consumed by %s: from the second chunk on bases and scalars are no longer paired (b_i with k_i)" % sorted(set(bad_in)))
+    takes = [(bb, E(f, t["args"][1])) for bb, t in f.calls() if t["f"].get("name") == "take" and bb in inloop]
+    if len(takes) != 2 or takes[0][1] != takes[1][1]:
+        problems.append("the two streams are advanced by %s per chunk, expected take(step) on both with the same step" % [show(x) for _, x in takes])
+    skips = [bb for bb, t in f.calls() if t["f"].get("name") == "skip" and bb not in inloop]
+    if len(skips) != 1:
+        problems.append("the surplus bases are not skipped exactly once before the loop")
+    else:
+        sk = [t for bb, t in f.calls() if t["f"].get("name") == "skip"][0]
+        amt = E(f, sk["args"][1])
+        if not (isinstance(amt, tuple) and amt[0] == "bin" and amt[1] == "Sub" and "len" in show(amt[2]) and "len" in show(amt[3]) and amt[2] != amt[3]):
+            problems.append("alignment skips %s, expected bases.len() - scalars.len()" % show(amt))
+    (rule.bad if problems else rule.ok)(key, "; ".join(problems) if problems else "skip(bases.len() - scalars.len()) once, then take(step) on both streams per chunk", f.loc)
+
+
 def run(ctx, res):
     facts = ctx.facts(["ws", "par"])
     res.analysed = facts.stats()
@@ -440,6 +476,7 @@ def run(ctx, res):
     check_flush(res, facts)
     check_window(res, facts)
     check_digits(res, facts, ctx.tier)
+    check_stream(res, facts)
     return {
         "level": "other",
         "explanation": "Typestate / pairing rules over the MIR of ark-ec's variable-base MSM and streaming Pippenger code (serial and parallel configurations): lock-step mutation of paired buffers, length policy of checked and unchecked entry points, flush/finalize structure, window recombination. Does NOT decide that any entry point returns the sum (digit extraction and bucket indexing are run-time index arithmetic).",
